@@ -92,6 +92,9 @@ func genC15(e *emitter, tier string, seed int64) {
 		{"bad-zone", []scriptSrc{{"a.p", "add_key(ts, \"2021-03-15 00:08:10\")\ndefault_time(ts, \"Mars/Phobos\")\np(get_key(ts), get_key(pl_msg))\n"}}, 0},
 		{"bad-zone-house-layout", []scriptSrc{{"a.p", "add_key(ts, \"171113 14:14:20\")\ndefault_time(ts, \"Mars/Phobos\")\np(get_key(ts), get_key(pl_msg))\n"}}, 0},
 		{"time-reader", []scriptSrc{{"a.p", "add_key(ts, \"not a time\")\ndefault_time(ts)\np(get_key(ts), get_key(pl_msg))\n"}}, 0},
+		// an error object must be a fresh one in every run (its chain of call sites does not grow from run to run)
+		{"bad-regex-nested", []scriptSrc{{"a.p", "add_key(k2, replace(message, \"(\", \"x\"))\np(\"never\")\n"}}, 0},
+		{"bad-regex-through-use", []scriptSrc{{"a.p", "p(\"a\")\nuse(\"b.p\")\n"}, {"b.p", "if true {\n  replace(message, \"(\", \"x\")\n}\n"}}, 0},
 		{"map-json", []scriptSrc{{"a.p", "j = load_json(\"{\\\"a\\\": [1, 2.5]}\")\nadd_key(j)\nadd_key(k2, j[\"a\"][1])\n"}}, 0},
 	}
 	points := []pointSpec{
